@@ -18,6 +18,8 @@ BUILTINS = {'len', 'int', 'str', 'bytes', 'bool', 'isinstance', 'type', 'range',
             'exec', 'compile', 'callable', 'format', 'slice', '__name__'}
 
 SECP_CURVE = T.ext('ecdsa.curves.SECP256k1')
+MUTATOR_NAMES = {'append', 'extend', 'insert', 'pop', 'remove', 'clear', 'update', 'add', 'sort', 'reverse', 'setdefault',
+                 'write', 'writelines'}
 
 
 def ext_value(dotted):
@@ -334,6 +336,16 @@ def _ext_call(ev, dotted, args, kwargs, fr, node):
                 except Exception:
                     return T.raise_('TypeError')
             return T.raw_op(short.upper(), *args)
+        if short == 'format' and len(args) == 2 and T.is_const(args[1]) and isinstance(args[1][1], str):
+            import re as _re
+            m_ = _re.fullmatch(r'0(\d+)b', args[1][1])
+            if m_ and T.type_of(args[0]) == 'int':
+                # format(x, '0Nb') == bin(x)[2:].zfill(N) for non-negative x
+                return T.raw_op('ZFILL', T.slice_(T.raw_op('BIN', args[0]), T.const(2), T.NONE), T.const(int(m_.group(1))))
+            if args[1][1] == 'b' and T.type_of(args[0]) == 'int':
+                return T.slice_(T.raw_op('BIN', args[0]), T.const(2), T.NONE)
+            if args[1][1] == '' :
+                return to_str(ev, args[0], fr)
         if short == 'open':
             ev.effects.append(('open', fr.fn.qual if fr.fn else None, node.lineno if node else 0,
                                tuple(T.show(a) for a in args)))
@@ -370,6 +382,18 @@ def _ext_call(ev, dotted, args, kwargs, fr, node):
         return normalize(form, s)
     if dotted == 'base64.b64encode':
         return T.raw_op('B64ENC', args[0])
+    if dotted in ('collections.namedtuple', 'typing.NamedTuple'):
+        from .evalr import _fixed_items
+        nm = args[0][1] if args and T.is_const(args[0]) else 'nt'
+        fl = args[1] if len(args) > 1 else kwargs.get('field_names')
+        if fl is not None and T.is_const(fl) and isinstance(fl[1], str):
+            names = fl[1].replace(',', ' ').split()
+        else:
+            items = _fixed_items(fl) if fl is not None else None
+            names = [i[1] for i in items] if items and all(T.is_const(i) for i in items) else None
+        if names:
+            return ('op', 'NTCLS', nm, tuple(names))
+        return T.opaque('namedtuple with non-constant fields')
     if dotted == 're.findall':
         return T.raw_op('REFINDALL', args[0], args[1])
     if dotted == 'json.dumps':
@@ -660,6 +684,12 @@ def method_call(ev, recv, name, args, kwargs, fr, node):
     # dict / list
     if name in ('items', 'values', 'keys') and not args:
         return T.raw_op(name.upper(), recv)
+    if name == 'get' and T.tag(recv) == 'dict' and args and not T.is_const(args[0]) and T.tag(args[0]) != 'enum' \
+            and 0 < len(recv[1]) <= 16 and all(T.is_const(k_) for k_, _ in recv[1]):
+        out = args[1] if len(args) > 1 else T.NONE
+        for k_, v_ in reversed(recv[1]):
+            out = T.phi(T.eq(args[0], k_), v_, out)
+        return out
     if name == 'get':
         if T.tag(recv) == 'dict' and T.is_const(args[0]):
             v = T.getitem(recv, args[0])
